@@ -406,7 +406,12 @@ func (b *Builder) structHash(t *types.Struct) (ret []byte, pkg string) {
 			name = "-"
 		}
 		ft, _ := b.TypeName(f.Type())
-		fmt.Fprintln(h, name, ft)
+		if tag := t.Tag(i); tag != "" {
+			// Field tags are part of a struct type's identity.
+			fmt.Fprintln(h, name, ft, strconv.Quote(tag))
+		} else {
+			fmt.Fprintln(h, name, ft)
+		}
 	}
 	ret = h.Sum(b.buf[:0])
 	return
